@@ -1,6 +1,7 @@
 // ir2c prototype: LLVM-14 IR -> C for CBMC (byte-addressed memory, exceptions lowered to a flag)
 #include "llvm/IR/Module.h"
 #include "llvm/IR/Instructions.h"
+#include "llvm/IR/InstrTypes.h"
 #include "llvm/IR/IntrinsicInst.h"
 #include "llvm/IR/Constants.h"
 #include "llvm/IR/DataLayout.h"
@@ -22,7 +23,7 @@ static std::map<const Function*, std::string> fnames;
 static std::map<const GlobalVariable*, std::string> gnames;
 static std::map<Type*, std::string> aggnames;
 static std::vector<std::string> aggdefs;
-static std::set<std::string> stubs, throwstubs;
+static std::set<std::string> stubs, throwstubs; static std::string rtpath;
 static bool matchpat(const std::set<std::string>& s, const std::string& n){ for(auto& p:s){ if(!p.empty()&&p.back()=='*'){ if(n.compare(0,p.size()-1,p,0,p.size()-1)==0) return true; } else if(n==p) return true; } return false; }
 static bool isStub(const std::string& n){ return matchpat(stubs,n)||matchpat(throwstubs,n); }
 static std::set<const GlobalVariable*> usedGlobals;
@@ -199,6 +200,14 @@ static void emitFunction(raw_ostream& o, const Function* F){
       if(auto* sw=dyn_cast<SwitchInst>(&I)){ std::string c=val(sw->getCondition()); for(auto& cs: sw->cases()){ o<<"    if("<<c<<"=="<<val(cs.getCaseValue())<<") {\n"; jump(o,F,&B,cs.getCaseSuccessor()); o<<"    }\n"; } jump(o,F,&B,sw->getDefaultDest()); continue; }
       if(auto* r=dyn_cast<ReturnInst>(&I)){ if(r->getReturnValue()) o<<"    return "<<val(r->getReturnValue())<<";\n"; else o<<"    return;\n"; continue; }
       if(isa<UnreachableInst>(&I)){ o<<"    __ir2c_unreachable(); return "<<zero(F->getReturnType())<<";\n"; continue; }
+      if(auto* rmw=dyn_cast<AtomicRMWInst>(&I)){ // single-threaded semantics (schedules are outside every LIFT-C claim)
+        std::string ct=ctype(T), ptr="*("+ct+"*)"+val(rmw->getPointerOperand()), v=val(rmw->getValOperand()); const char* op=nullptr;
+        switch(rmw->getOperation()){ case AtomicRMWInst::Add: op="+"; break; case AtomicRMWInst::Sub: op="-"; break; case AtomicRMWInst::And: op="&"; break; case AtomicRMWInst::Or: op="|"; break; case AtomicRMWInst::Xor: op="^"; break; case AtomicRMWInst::Xchg: op=""; break; default: break; }
+        if(!op){ err+="atomicrmw op\n"; continue; }
+        o<<"    "<<L<<" = "<<ptr<<"; "<<ptr<<" = "<<(op[0]? mask(T,"("+ct+")("+L+op+v+")") : v)<<";\n"; continue; }
+      if(auto* cx=dyn_cast<AtomicCmpXchgInst>(&I)){ Type* vt=cx->getCompareOperand()->getType(); std::string ct=ctype(vt), ptr="*("+ct+"*)"+val(cx->getPointerOperand());
+        o<<"    { "<<ct<<" old_="<<ptr<<"; "<<L<<".f0=old_; "<<L<<".f1=(old_=="<<val(cx->getCompareOperand())<<"); if("<<L<<".f1) "<<ptr<<" = "<<val(cx->getNewValOperand())<<"; }\n"; continue; }
+      if(isa<FenceInst>(&I)){ continue; }
       if(isa<FreezeInst>(&I)){ o<<"    "<<L<<" = "<<val(I.getOperand(0))<<";\n"; continue; }
       std::string s; raw_string_ostream os(s); I.print(os); err+="unsupported instruction "+os.str()+"\n";
     } }
@@ -220,7 +229,7 @@ int main(int argc,char** argv){
   if(argc<3){ errs()<<"usage: ir2c in.ll out.c root1 [root2 ...] [--stub name ...]\n"; return 2; }
   LLVMContext C; SMDiagnostic D; auto M=parseIRFile(argv[1],D,C); if(!M){ D.print("ir2c",errs()); return 2; }
   DL=&M->getDataLayout();
-  std::vector<std::string> roots; for(int i=3;i<argc;++i){ std::string a=argv[i]; if(a=="--stub"&&i+1<argc){ stubs.insert(argv[++i]); } else if(a=="--throw"&&i+1<argc){ throwstubs.insert(argv[++i]); } else roots.push_back(a); }
+  std::vector<std::string> roots; for(int i=3;i<argc;++i){ std::string a=argv[i]; if(a=="--stub"&&i+1<argc){ stubs.insert(argv[++i]); } else if(a=="--throw"&&i+1<argc){ throwstubs.insert(argv[++i]); } else if(a=="--rt"&&i+1<argc){ rtpath=argv[++i]; } else roots.push_back(a); }
   for(auto& F:*M) fnames[&F]= F.getName().startswith("llvm.")? "" : ((F.isDeclaration()? std::string("X_"):std::string(""))+cid(F.getName()));
   // reachability
   std::vector<const Function*> work; std::set<const Function*> seen;
@@ -245,6 +254,13 @@ int main(int argc,char** argv){
   for(auto* f:order){ std::string nm=f->getName().str(); if(f->isIntrinsic()) continue; bool thr=matchpat(throwstubs,nm); bool st=matchpat(stubs,nm);
     if(!(thr||(st&&!f->isDeclaration()))) continue; unsigned n=0; names.clear(); for(auto& a:f->args()) names[&a]="a"+std::to_string(n++);
     out<<proto(f)<<" { "; if(thr) out<<"__ir2c_thrown = 1; "; if(!f->getReturnType()->isVoidTy()) out<<"return "<<zero(f->getReturnType())<<"; "; out<<"}\n"; }
+  { // externs without a model in the runtime header: in native builds they get weak aborting bodies (CBMC: no body = nondet)
+    std::set<std::string> modelled; if(!rtpath.empty()){ FILE* f=fopen(rtpath.c_str(),"r"); if(f){ std::string txt; char buf[4096]; size_t k; while((k=fread(buf,1,sizeof buf,f))>0) txt.append(buf,k); fclose(f);
+      for(size_t i=0;i+2<txt.size();++i) if(txt[i]=='X'&&txt[i+1]=='_'&&(i==0||!(isalnum((unsigned char)txt[i-1])||txt[i-1]=='_'))){ size_t j=i; while(j<txt.size()&&(isalnum((unsigned char)txt[j])||txt[j]=='_')) ++j; if(j<txt.size()&&txt[j]=='(') modelled.insert(txt.substr(i,j-i)); } } }
+    out<<"#ifndef __CPROVER__\n";
+    for(auto* f:order){ if(!f->isDeclaration()||f->isIntrinsic()) continue; std::string nm=f->getName().str(); if(isStub(nm)) continue; if(modelled.count(fnames[f])) continue; if(f->isVarArg()) continue;
+      unsigned n=0; names.clear(); for(auto& a:f->args()) names[&a]="a"+std::to_string(n++); out<<"__attribute__((weak)) "<<proto(f)<<" { abort(); }\n"; }
+    out<<"#endif\n"; }
   out<<"void __ir2c_init_globals(void){\n"<<go.str()<<"}\n\n"<<bo.str();
   out.flush(); out.close();
   { std::string hp=std::string(argv[2]); hp=hp.substr(0,hp.size()-2)+".h"; std::error_code ec2; raw_fd_ostream hd(hp,ec2);
